@@ -353,6 +353,80 @@ def path_task(task):
     return None, part
 
 
+def csmc_task(task):
+    """Final weights of the real ConditionalSMCSampler (resampling off) on 1-3 data points: for every particle the
+    unnormalised log weight minus [log_p_one + log_pdf - sum of log_q along its ancestry] must be the same constant for
+    all particles of the swarm (the swarm is renormalised every generation), and exactly -log N for a single data point."""
+    from vlib.harness import Partial, describe_exception
+    from phyclone.smc.samplers import ConditionalSMCSampler
+    from phyclone.smc.swarm import TreeHolder
+    from phyclone.smc.utils import RootPermutationDistribution
+    from phyclone.tree import FSCRPDistribution, TreeJointDistribution
+    from phyclone.utils.dev import clear_proposal_dist_caches
+    from checks.c01 import random_placement_forest
+
+    part = Partial()
+    for c in range(task["count"]):
+        rng = np.random.default_rng([task["seed"], task["shard"], c, 89])
+        n = [1, 1, 2, 3][c % 4]
+        rho = [0.1, 0.0, 0.1][c % 3]
+        kname = KERNELS[(c // 4) % 3]
+        perm = bool((c // 2) % 2)
+        N = [2, 3, 5][c % 3]
+        alpha = float(np.exp(rng.normal() * 0.7))
+        data = gen.make_data(rng, n, 1 + c % 2, 5, kind="moderate", outlier_prior=0.3 if rho > 0 else 0.0)
+        f = random_placement_forest(rng, n, 0.4 if rho > 0 else 0.0)
+        case = {"seed": task["seed"], "shard": task["shard"], "case": c, "kernel": kname, "rho": rho, "perm": perm, "n": n,
+                "N": N, "forest": f.describe(), "alpha": alpha}
+        try:
+            clear_proposal_dist_caches()
+            td = TreeJointDistribution(FSCRPDistribution(alpha))
+            g = np.random.default_rng(c + 7)
+            kernel = make_kernel(kname, td, g, rho, perm)
+            tree, _ = gen.build_tree(f, data)
+            sigma = RootPermutationDistribution.sample(tree, g)
+            if not refmodel.is_compatible_order(f, [dp.idx for dp in sigma]):
+                continue
+            swarm = ConditionalSMCSampler(tree, sigma, kernel, num_particles=N, resample_threshold=0.0).sample()
+            offs = []
+            for p, lw in zip(swarm.particles, swarm.unnormalized_log_weights):
+                # ancestry, oldest first
+                chain = []
+                q = p
+                while q is not None:
+                    chain.append(q)
+                    q = q.parent_particle
+                chain = chain[::-1]
+                sum_lq = 0.0
+                parent = None
+                for t, q in enumerate(chain):
+                    prop = kernel.get_proposal_distribution(sigma[t], parent, None)
+                    sum_lq += float(prop.log_p(TreeHolder(q.tree, td, kernel.perm_dist)))
+                    parent = q
+                T = p.tree
+                ft, _n = gen.tree_to_forest(T)
+                target = float(td.log_p_one(T)) + (-refmodel.count_orders(ft) if perm else 0.0)
+                offs.append(float(lw) - (target - sum_lq))
+                part.count("evaluations")
+                part.count("csmc_particle_weights_checked")
+            spread = max(offs) - min(offs)
+            part.maxi("max_csmc_weight_spread", spread)
+            bad = spread > 1e-8 or (n == 1 and abs(offs[0] + math.log(N)) > 1e-8)
+            if bad:
+                part.violation("final weights of the conditional SMC pass are not target / product of proposal "
+                               "probabilities%s" % (" (single data point: the first generation is also the last)" if n == 1 else ""),
+                               dict(case, offsets=offs, expected_single_point=-math.log(N)))
+            part.see("csmc|%s|%s|%s|n%d|N%d" % (kname, rho, perm, n, N))
+        except Exception as e:
+            et, where, msg = describe_exception(e)
+            if where == "outside-repo":
+                import traceback
+                part.inconc("harness error: " + traceback.format_exc()[-800:])
+            else:
+                part.violation("%s in %s during a conditional SMC pass (%s kernel)" % (et, where, kname), dict(case, msg=msg))
+    return None, part
+
+
 def path_structure(nmax):
     """Reference-only sanity: along a data order, placement paths and compatible forests are in bijection."""
     bad = []
@@ -427,6 +501,10 @@ def run(ctx):
     ctx.map("checks.c08", "smc_case", stasks, timeout=1500)
     ptasks = [{"seed": ctx.seed, "shard": i, "count": 12 if ctx.tier == "quick" else 600} for i in range(16)]
     ctx.map("checks.c08", "path_task", ptasks, timeout=1500)
+    ctasks = [{"seed": ctx.seed, "shard": i, "count": 12 if ctx.tier == "quick" else 200} for i in range(16)]
+    ctx.map("checks.c08", "csmc_task", ctasks, timeout=1500)
+    if ctx.counters.get("csmc_particle_weights_checked", 0) < 100:
+        ctx.inconc("fewer than 100 conditional-SMC particle weights checked")
     if ctx.counters.get("retained_path_weights_checked", 0) < 200:
         ctx.inconc("fewer than 200 retained-path weights checked")
     if ctx.counters.get("paths", 0) < 1000:
